@@ -380,14 +380,18 @@ fn hop_from(v: &Value) -> HOp {
 }
 
 fn hist_run_t<T: Pixel>(o: &HOp) -> Result<Vec<u32>, String> {
-    let (w, h) = match o.variant {
-        0 => (2usize, 2usize),
-        1 => (3, 1),
-        _ => (4, 4),
+    // variants 3 and 4 are 4:2:0 images with one resp. two chroma rows of the same width
+    let (w, h, ss) = match o.variant {
+        0 => (2usize, 2usize, (0u8, 0u8)),
+        1 => (3, 1, (0, 0)),
+        2 => (4, 4, (0, 0)),
+        3 => (4, 2, (1, 1)),
+        _ => (4, 4, (1, 1)),
     };
     let m = &o.meta;
     let n = if m.wide { 10 } else { 8 };
-    let cfg = cfg_full(n, m.full, (0, 0), m.m, m.t, m.p);
+    let cfg = cfg_full(n, m.full, ss, m.m, m.t, m.p);
+    let (sx, sy) = (ss.0 as usize, ss.1 as usize);
     let fdata: Vec<[f32; 3]> = (0..w * h).map(|i| fcontent(i + 17 * o.variant as usize)).collect();
     let max = ((1u32 << n) - 1) as u16;
     let e = |e: yuvxyb::ConversionError| format!("{e:?}");
@@ -397,8 +401,8 @@ fn hist_run_t<T: Pixel>(o: &HOp) -> Result<Vec<u32>, String> {
         let f = Frame {
             planes: [
                 plane_new::<T>(w, h, 0, 0, 0, 0, |x, y| code(0, x + o.variant as usize, y, max), None),
-                plane_new::<T>(w, h, 0, 0, 0, 0, |x, y| code(1, x + o.variant as usize, y, max), None),
-                plane_new::<T>(w, h, 0, 0, 0, 0, |x, y| code(2, x + o.variant as usize, y, max), None),
+                plane_new::<T>(w >> sx, h >> sy, sx, sy, 0, 0, |x, y| code(1, x + o.variant as usize, y, max), None),
+                plane_new::<T>(w >> sx, h >> sy, sx, sy, 0, 0, |x, y| code(2, x + o.variant as usize, y, max), None),
             ],
         };
         Yuv::new(f, cfg).expect("well-formed")
@@ -458,14 +462,14 @@ fn hist_ops(tier: Tier) -> Vec<HOp> {
     metas.dedup();
     let mut ops = vec![];
     let variants: &[u8] = match tier {
-        Tier::Quick => &[0, 2],
-        Tier::Thorough => &[0, 1, 2],
+        Tier::Quick => &[0, 3, 4],
+        Tier::Thorough => &[0, 1, 2, 3, 4],
     };
     for (m, p, t, wide, full) in metas {
         for (a, b, _) in PAIRS {
             for conv in [a, b] {
                 for &variant in variants {
-                    ops.push(HOp { conv, meta: Meta { m, p, t, wide, full }, variant });
+                    ops.push(HOp { conv, meta: Meta { m, p, t, wide, full, ss: (0, 0) }, variant });
                 }
             }
         }
@@ -620,15 +624,52 @@ pub fn run(tier: Tier) -> Report {
     let mut rep = Report::new("C11");
     let dc = dec_cases(tier);
     let acc = par_chunks(dc.len() as u64, 8, |acc, lo, hi| {
-        let mut memo = HashMap::new();
-        for i in lo..hi {
-            let c = &dc[i as usize];
-            if c.wide {
-                check_decode::<u16>(acc, i, tier, c, &mut memo)
-            } else {
-                check_decode::<u8>(acc, i, tier, c, &mut memo)
+        // every chunk runs on a fresh thread, so that the calls that preceded a case on its thread
+        // are exactly the earlier cases of its chunk (a replayable history)
+        let chunk: Vec<DecCase> = dc[lo as usize..hi as usize].to_vec();
+        let sub = fresh(move || {
+            let mut a = Acc::default();
+            let mut memo = HashMap::new();
+            for (k, c) in chunk.iter().enumerate() {
+                let before = a.viols.len();
+                if c.wide {
+                    check_decode::<u16>(&mut a, lo + k as u64, tier, c, &mut memo)
+                } else {
+                    check_decode::<u8>(&mut a, lo + k as u64, tier, c, &mut memo)
+                }
+                if a.viols.len() > before {
+                    // does the case fail on its own (fresh thread)? if not, the failure is a
+                    // dependence on the call history: report it as such, with the history
+                    let c2 = *c;
+                    let alone = fresh(move || {
+                        let mut b = Acc::default();
+                        let mut m2 = HashMap::new();
+                        if c2.wide {
+                            check_decode::<u16>(&mut b, 0, tier, &c2, &mut m2)
+                        } else {
+                            check_decode::<u8>(&mut b, 0, tier, &c2, &mut m2)
+                        }
+                        !b.viols.is_empty()
+                    });
+                    if !alone {
+                        let keys: Vec<String> = a.viols.iter().filter(|(_, v)| v.index == lo + k as u64).map(|(k, _)| k.clone()).collect();
+                        for key in keys {
+                            let v = a.viols.remove(&key).unwrap();
+                            a.violation(
+                                v.index,
+                                "result-depends-on-call-history (decode cases in sequence)".into(),
+                                format!("holds when run first on a fresh thread, fails after {k} earlier conversions on the same thread: {}", v.detail),
+                                json!({"kind":"c11decseq","tier":tier.name(),"cases": chunk[..=k].iter().map(dec_json).collect::<Vec<_>>()}),
+                            );
+                        }
+                    }
+                    break;
+                }
             }
-        }
+            a
+        });
+        acc.merge(sub);
+        let _ = hi;
         if lo == 0 {
             acc.sample(json!({"case": dec_json(&dc[(hi - 1) as usize]), "paddings": pads(tier, 4, 4).len()}));
         }
@@ -670,7 +711,7 @@ pub fn run(tier: Tier) -> Report {
     rep.guard_bucket("histories [a,b] and [a,b,a]: every result equals the fresh-thread result");
     rep.bound = format!(
         "call histories [a,b] and [a,b,a] over an alphabet of {} operations (10 conversions x metadata varying every field from {} base triples x {} image variants), each on a fresh thread; image sizes {:?}^2 (plus long/large shapes such as 128x2, 2x128, 257x1, 256x4, 320x8) restricted to multiples of the subsampling x 6 subsamplings x u8/u16 x 2 metadata sets: {} YUV sources (each to Rgb, LinearRgb, Xyb; by reference, by value, repeated, and rebuilt with {} other paddings/poisons; 0..=32 on each axis at 4x4 and 8x8), {} float->float conversions (8 kinds), {} encodes (4 source kinds)",
-        rep.extra.get("history_ops").and_then(|v| v.as_u64()).unwrap_or(0), tier.pick(2, 4), tier.pick(2, 3),
+        rep.extra.get("history_ops").and_then(|v| v.as_u64()).unwrap_or(0), tier.pick(2, 4), tier.pick(3, 5),
         sizes(tier), dc.len(), pads(tier, 5, 5).len(), fc.len(), ec.len()
     );
     rep.rule = "output dims = input dims; output pixel (x,y) bit-identical to the conversion of the 1x1 4:4:4 image of Y(x,y), U(x>>ss_x,y>>ss_y), V(..) (resp. of the single float pixel); subsampled encode: luma = 4:4:4 luma, each chroma sample among its block's 4:4:4 chroma, plane sizes (w>>ss_x,h>>ss_y); identical results for every padding/stride/poison; borrowed sources equal to a prior clone; second run identical".into();
@@ -699,6 +740,33 @@ pub fn replay(case: &Value) -> (bool, String) {
         }
         "c11float" => check_float(&mut acc, 0, g("w"), g("h"), case["op"].as_str().unwrap()),
         "c11hist" => return replay_history(case),
+        "c11decseq" => {
+            let tier = if case["tier"] == "thorough" { Tier::Thorough } else { Tier::Quick };
+            let cases: Vec<DecCase> = case["cases"].as_array().unwrap().iter().map(|c| DecCase {
+                w: c["w"].as_u64().unwrap() as usize,
+                h: c["h"].as_u64().unwrap() as usize,
+                ss: (c["ss"][0].as_u64().unwrap() as u8, c["ss"][1].as_u64().unwrap() as u8),
+                wide: c["u16"].as_bool().unwrap(),
+                k: c["meta"].as_u64().unwrap() as u8,
+            }).collect();
+            let res = fresh(move || {
+                let mut memo = HashMap::new();
+                let mut last = Acc::default();
+                for c in cases.iter() {
+                    last = Acc::default();
+                    if c.wide {
+                        check_decode::<u16>(&mut last, 0, tier, c, &mut memo)
+                    } else {
+                        check_decode::<u8>(&mut last, 0, tier, c, &mut memo)
+                    }
+                }
+                last.viols.values().next().map(|v| v.detail.clone())
+            });
+            return match res {
+                Some(d) => (true, format!("result-depends-on-call-history (decode cases in sequence) :: {d}")),
+                None => (false, "sequence ends well".into()),
+            };
+        }
         _ => {
             let c = EncCase { w: g("w"), h: g("h"), ss: (case["ss"][0].as_u64().unwrap() as u8, case["ss"][1].as_u64().unwrap() as u8), wide: case["u16"].as_bool().unwrap(), k: g("meta") as u8, src: g("src") as u8 };
             if c.wide {
